@@ -240,7 +240,11 @@ def rule_accumulate_all(ctx, rep, rule_id="R-ACCUMULATE-ALL"):
                         continue
                     if any(p in names_in(x) for x in walk_no_nested(m.node) if isinstance(x, ast.Call)):
                         raise AnalysisError(f"{m.qname}: how the collection parameter `{p}` is stored is not understood")
-                    continue  # the parameter is not used at all
+                    # the parameter is not used at all: an accumulator that accepts what a file / codemod reports and keeps nothing of it
+                    n += 1
+                    rep.check(rule_id, m.qname, m.loc(), False, f"{name}({p})",
+                              f"the accumulator takes the collection `{p}` and never stores it: what the caller reports is lost")
+                    continue
                 n += 1
                 ok = True
                 why = ""
